@@ -18,6 +18,8 @@ use std::sync::{Arc, Mutex};
 // ------------------------------------------------------------------------------------------ data
 /// schema variants; `sv` 3,4 (dictionary, list+float) are only used with IPC and Parquet
 fn make_batches(sv: usize, nb: usize, seed: u64) -> (SchemaRef, Vec<RecordBatch>) {
+    // sv / 100: 1 = every batch has zero rows (header-only outputs), 2 = only the first batch has zero rows
+    let (empties, sv) = (sv / 100, sv % 100);
     let mut r = Rng::new(seed ^ 0xC18);
     let alphabet: Vec<&str> = vec!["a", "b", "Z", "0", " ", ",", "\"", "\\", "\n", "é", "{", "}", "PAR1", "ARROW1", ":"];
     let rstr = |r: &mut Rng| -> String {
@@ -42,8 +44,9 @@ fn make_batches(sv: usize, nb: usize, seed: u64) -> (SchemaRef, Vec<RecordBatch>
         ]),
     });
     let mut out = Vec::new();
-    for _ in 0..nb {
+    for bi in 0..nb {
         let rows = match r.below(8) { 0 => 0, 1 => 1, 2 => 8 + r.below(3), 3 => 30 + r.below(12), _ => 1 + r.below(7) };
+        let rows = if empties == 1 || (empties == 2 && bi == 0) { 0 } else { rows };
         // sv 5: arrays are slices of longer arrays (non-zero offset)
         let (pad, total) = if sv == 5 { let p = 1 + r.below(9); (p, rows + p + r.below(3)) } else { (0, rows) };
         let cols: Vec<ArrayRef> = match sv {
@@ -449,6 +452,8 @@ const C_AVRO: usize = 3;
 const C_JSON: usize = 4;
 const C_CSV: usize = 5;
 const C_IPC_PUSH: usize = 6;
+/// Parquet with the footer metadata taken from the INTACT file (metadata cache) and data that ends early
+const C_PARQUET_META: usize = 7;
 
 fn class_of(fmt: usize) -> Option<usize> {
     match fmt {
@@ -536,6 +541,18 @@ fn read_all(cls: usize, s: &Spec, schema: &SchemaRef, data: Bytes, st: Option<Sh
     out
 }
 
+/// ArrowReaderMetadata loaded once from the complete file, then ParquetRecordBatchReaderBuilder::new_with_metadata over
+/// `data` (the first k bytes): the sequential page reader walks every column chunk the footer promises.
+fn read_parquet_meta(meta: &parquet::arrow::arrow_reader::ArrowReaderMetadata, data: Bytes, small_batches: bool) -> ReadOut {
+    let mut out = ReadOut { outcome: 0, nb: 0, rows: vec![] };
+    let b = parquet::arrow::arrow_reader::ParquetRecordBatchReaderBuilder::new_with_metadata(data, meta.clone());
+    match b.with_batch_size(if small_batches { 3 } else { 1024 }).build() {
+        Err(_) => out.outcome = 1,
+        Ok(r) => collect(r, &mut out),
+    }
+    out
+}
+
 fn hash_of(rows: &[u64]) -> u64 { *prefix_hashes(rows).last().unwrap() }
 
 fn artefact(s: &Spec) -> (SchemaRef, Vec<RecordBatch>, WriteRun) {
@@ -568,9 +585,15 @@ fn op_trunc(a: &Args) -> Args {
     let (rows, cum) = written_rows(&s, &schema, &batches, &ff.data);
     let file = Bytes::from(ff.data.clone());
     let (mut os, mut nbs, mut nrs, mut hs) = (vec![], vec![], vec![], vec![]);
+    let meta = if cls == C_PARQUET_META {
+        Some(parquet::arrow::arrow_reader::ArrowReaderMetadata::load(&file, Default::default()).expect("metadata of the complete file"))
+    } else { None };
     for &k in &ks {
         let k = k.min(file.len());
-        let r = read_all(cls, &s, &schema, file.slice(0..k), None, cap);
+        let r = match &meta {
+            Some(m) => read_parquet_meta(m, file.slice(0..k), cap % 2 == 1),
+            None => read_all(cls, &s, &schema, file.slice(0..k), None, cap),
+        };
         os.push(r.outcome); nbs.push(r.nb as i64); nrs.push(r.rows.len() as i64); hs.push(hash_of(&r.rows));
     }
     // Avro OCF: the header is what the writer emits before the first batch
@@ -718,12 +741,21 @@ fn specs(tier: &str, r: &mut Rng) -> Vec<Spec> {
             add(r, F_PARQUET, o, &all, &[1, 2, 3]);
         }
         add(r, F_PARQUET, vec![0, 0, 1, 0, 1, 0, 0, 0], &all, &[0]);
+        // single-column files with several pages per chunk: a cut exactly at a page header leaves a shorter but
+        // self-consistent column (read under the intact file's metadata, class C_PARQUET_META)
+        add(r, F_PARQUET, vec![0, 2, 0, 0, 1, 0, 0, 0], &[0], &[2, 3]);
+        add(r, F_PARQUET, vec![4, 2, 1, 0, 2, 0, 0, 2], &[0], &[2, 3]);
         add(r, F_PARQUET, vec![0, 0, 0, 0, 1, 0, 0, 0], &[1, 2], &[40]);
         // column chunks larger than TrackedWrite's BufWriter (8 KiB): page data goes to the sink directly
         add(r, F_PARQUET, vec![0, 0, 0, 0, 1, 0, 0, 0], &[1], &[300]);
         for o in [vec![0, 0, 1, 0, 1, 0], vec![0, 2, 0, 1, 2, 1], vec![0, 0, 1, 0, 2, 0]] { add(r, F_PARQUET_LOW, o, &[0], &[0, 1, 2, 3]); }
         for h in [0, 1, 1] { add(r, F_CSV, vec![h], &flat, &[1, 2, 3]); }
         add(r, F_CSV, vec![1], &[1, 2], &[60]);
+        // header-only CSV (every batch empty) and an empty first batch: the header must reach the sink before write() returns
+        add(r, F_CSV, vec![1], &[100, 101, 102], &[1]);
+        add(r, F_CSV, vec![1], &[101, 102, 105], &[2, 3]);
+        add(r, F_CSV, vec![1], &[200, 201, 202], &[2, 3]);
+        add(r, F_CSV, vec![0], &[101, 201], &[1, 2]);
         // KNOWN-FINDING candidate: arrow_csv::Writer::into_inner() after a write() that returned Err panics
         // (`self.writer.into_inner().unwrap()` re-flushes into the failing sink) instead of reporting the error.
         // Excluded from the default generator; VERIF_C18_CSV_INTO_INNER=1 includes it.
@@ -731,8 +763,10 @@ fn specs(tier: &str, r: &mut Rng) -> Vec<Spec> {
         for e in [0, 1, 0] { add(r, F_JSON_LINES, vec![e], &flat, &[1, 2, 3]); add(r, F_JSON_ARRAY, vec![e], &flat, &[0, 1, 2, 3]); }
         add(r, F_JSON_LINES, vec![0], &[1, 2], &[0]);
         add(r, F_JSON_LINES, vec![0], &[1, 2], &[60]);
+        add(r, F_JSON_ARRAY, vec![0], &[101, 201], &[1, 2]);
         for c in [0, 0, 1, 2, 3] { add(r, F_AVRO_OCF, vec![c], &flat, &[1, 2, 3]); }
         add(r, F_AVRO_OCF, vec![0], &flat, &[0]);
+        add(r, F_AVRO_OCF, vec![0], &[101, 201], &[1, 2]);
         for _ in 0..2 { add(r, F_AVRO_SOE, vec![], &flat, &[1, 2, 3]); }
     }
     v
@@ -826,6 +860,8 @@ pub fn generate(tier: &str, r: &mut Rng, emit: &mut dyn FnMut(Case)) {
             let cap = caps[(s.seed % 2) as usize];
             let mut classes = vec![(cls, cap)];
             if cls == C_IPC_STREAM { classes.push((C_IPC_PUSH, [1usize, 5, 64, 100000][(s.seed % 4) as usize])); }
+            // data cut at every byte (page-header boundaries included) under footer metadata of the intact file
+            if cls == C_PARQUET && len <= 4096 { classes.push((C_PARQUET_META, ((s.seed >> 1) % 2) as usize)); }
             for (tcls, cap) in classes {
                 for chunk in ks.chunks(256) {
                     let mut args = s.groups(tcls as i64);
